@@ -166,13 +166,14 @@ type ClientParams struct {
 	SessionID  uint32 `json:"session_id"`
 	CDNOriginHost string `json:"cdn_origin_host,omitempty"`
 	CDNWsUrlPath  string `json:"cdn_ws_url_path,omitempty"`
+	StreamTimeout int    `json:"stream_timeout,omitempty"` // seconds; 0 = default (300)
 }
 
 // ClientConfig runs the real configuration path (RawConfig -> ProcessRawConfig).
 func (w *SrvWorld) rawClientConfig(p ClientParams) client.RawConfig {
 	raw := client.RawConfig{ServerName: p.ServerName, ProxyMethod: p.Method, EncryptionMethod: p.Encryption, UID: p.UID, PublicKey: w.PubRaw,
 		NumConn: p.NumConn, LocalHost: "127.0.0.1", LocalPort: "1984", RemoteHost: "10.0.0.2", RemotePort: "443",
-		UDP: p.UDP, BrowserSig: p.Browser, Transport: p.Transport}
+		UDP: p.UDP, BrowserSig: p.Browser, Transport: p.Transport, StreamTimeout: p.StreamTimeout}
 	if raw.ServerName == "" {
 		raw.ServerName = "www.bing.com"
 	}
